@@ -1,3 +1,4 @@
+\* C18 RangeLock with the proposed repairs, larger word.
 SPECIFICATION Spec
 CONSTANTS
   MAXU = 3
@@ -9,10 +10,11 @@ CONSTANTS
   t3 = t3
   MaxOps = 2
   Kinds = {"lock","try2","try1"}
-  MaxIntr = 1
+  MaxIntr = 0
   FixEmpty = TRUE
   FixAdjust = TRUE
   Broken = "none"
+  OnlyNonEmpty = FALSE
 SYMMETRY Sym
 CHECK_DEADLOCK FALSE
 INVARIANTS TypeOK HeldDisjoint IndexOrdered LookupExact IndexIsHeld WaiterAttached NoStaleWaiter NoStuck
